@@ -595,6 +595,27 @@ def run_insitu(ctx, spec):
             lst.close()
         os.remove(fn)
         report(ctx, mon, case)
+    # ... and on fields whose numbers are wider further down the column than in the first row (fixed-point columns of
+    # right-justified numbers): every cell of the copy against the text (C05's comparison), so that a reader handed a
+    # field cut short is seen even though it converts what it was handed correctly
+    for f in [f for f in corpus('all')[0] if '/TOUGH2/10/' in f or '/TOUGH2/11/' in f][:2]:
+        rel = os.path.relpath(f, REPO)
+        case = {'file': rel, 'kind': 'listing-variant-cells', 'variant': 'wider-fixed'}
+        try:
+            ref = LR.parse_listing(f)
+            lines = C05.read_lines(f)
+            n = C05.make_variant(ctx, random.Random(17), lines, ref, 'wider-fixed', 1.0)
+            fn = C05.write_variant(ctx, f, lines, 'c16wide')
+            C05.selfcheck(ctx, fn, ref)
+        except Exception as e:
+            import traceback
+            raise HarnessError('building the listing variant failed: %s\n%s' % (e, traceback.format_exc()))
+        if n == 0:
+            continue
+        ctx.count('cells_widened_in_listing_variants', n)
+        C05.check_listing(ctx, fn, rel, ref, 'wider-fixed', (), case)
+        os.remove(fn)
+        report(ctx, mon, case)
     if mon.stackf or mon.stacki:
         ctx.violation('raises:insitu:unreturned-call', 'calls that never returned: %r' % (mon.stackf + mon.stacki), {'files': 'corpus'})
     ctx.count('insitu_calls_checked', mon.nf + mon.ni)
